@@ -271,7 +271,9 @@ def build_driver(P):
             sh(["cp", os.path.join(exdir, f), bdir])
         # conv.ml and the driver are concatenated so that they see the extracted types
         with open(os.path.join(bdir, "drv.ml"), "w") as o:
-            o.write("open Model\n")
+            # the extracted code may define its own `string`/`list`-named things: restore OCaml's
+            o.write("open Model\nmodule String = Stdlib.String\nmodule List = Stdlib.List\nmodule Char = Stdlib.Char\n"
+                    "type string = Stdlib.String.t\n")
             for f in ocaml_srcs:
                 o.write(f'# 1 "{f}"\n')
                 o.write(open(f).read())
@@ -459,25 +461,30 @@ def evaluate_cases(P, cases):
     """Run cases through implementation and model; returns list of
     (case, impl_res, model_res, verdict) where verdict is None (agree and the
     property predicate holds) or a dict describing the failure."""
-    # model side, batched
-    reqs, spans = [], []
+    # implementation side first (a property may feed what the implementation
+    # produced - a trace, a manifest - back into the model: P.REQUESTS_NEED_IMPL)
+    ires_all = []
     for c in cases:
-        r = P.requests(c)
-        spans.append((len(reqs), len(r)))
-        reqs += r
-    resp = run_driver(P.ID, reqs)
-    out = []
-    for c, (a, n) in zip(cases, spans):
-        try:
-            mres = P.model(c, resp[a:a + n])
-        except Exception as e:
-            mres = {"model_error": repr(e), "raw": resp[a:a + n]}
         try:
             ires = with_alarm(getattr(P, "CASE_TIMEOUT", 20), P.impl, c)
         except Timeout:
             ires = {"error": "Timeout"}
         except Exception as e:  # impl() is expected to catch; anything here is a harness-visible crash
             ires = {"error": exc_class(e), "trace": traceback.format_exc()[-600:]}
+        ires_all.append(ires)
+    need = getattr(P, "REQUESTS_NEED_IMPL", False)
+    reqs, spans = [], []
+    for c, ires in zip(cases, ires_all):
+        r = P.requests(c, ires) if need else P.requests(c)
+        spans.append((len(reqs), len(r)))
+        reqs += r
+    resp = run_driver(P.ID, reqs)
+    out = []
+    for c, ires, (a, n) in zip(cases, ires_all, spans):
+        try:
+            mres = P.model(c, resp[a:a + n])
+        except Exception as e:
+            mres = {"model_error": repr(e), "raw": resp[a:a + n]}
         verdict = None
         try:
             why = P.oracle(c, ires, mres)
